@@ -117,6 +117,15 @@ Section Ops.
       split; auto. split; auto. inversion RR; subst. reflexivity.
   Qed.
 
+  Lemma add_events setrc h x o ok h' ns o' ev : heap_inv h -> small (length (elems h)) ->
+    ptrheap_add std_tc std_hc cmp setrc h x o = Ok (ok, h', ns, o', ev) ->
+    resize_res (h_alloc h) (N.of_nat (length (elems h)) * 8 + 8) o (ok, h_alloc h', o', ev).
+  Proof.
+    intros HI Hs E. destruct (add_run setrc h x o HI Hs) as (ok0 & a & o1 & ev0 & RR & E0).
+    rewrite E0 in E. destruct ok0; injection E as <- <- <- <- <-; cbn [h_alloc]; auto.
+    inversion RR; subst. exact RR.
+  Qed.
+
   (* ---- delete ---- *)
   Lemma last_split (l : list N) : l <> [] -> l = removelast l ++ [el l (length l - 1)].
   Proof.
@@ -244,7 +253,8 @@ Section Ops.
     exists h' ns o' ev,
       ptrheap_delete std_tc std_hc cmp setrc h rc o = Ok (h', ns, o', ev) /\
       heap_inv h' /\ Permutation (el (elems h) rc :: elems h') (elems h) /\
-      (setrc = true -> forall pos, handles pos h -> handles (apply_notes pos ns) h').
+      (setrc = true -> forall pos, handles pos h -> handles (apply_notes pos ns) h') /\
+      (exists ok, resize_res (h_alloc h) (N.of_nat (nelems h - 1) * 8) o (ok, h_alloc h', o', ev)).
   Proof.
     intros [Hn HO] Hs Hrc. unfold ptrheap_delete. cbv zeta.
     destruct (Nat.eqb_spec (nelems h) 0) as [|Hnz]; [lia|].
@@ -252,9 +262,9 @@ Section Ops.
     assert (Hne : l <> []) by (intro E; rewrite E in Hn; simpl in Hn; lia).
     destruct (Nat.eqb_spec rc (n - 1)) as [Erc|Erc]; cbn [negb].
     - (* the last element: nothing moves *)
-      cbn [bind]. destruct (shrink1_run l (h_alloc h) o Hs) as (ok & a & o1 & ev & _ & ES).
+      cbn [bind]. destruct (shrink1_run l (h_alloc h) o Hs) as (ok & a & o1 & ev & RR & ES).
       rewrite ES. cbn [bind]. do 4 eexists. split; [reflexivity|].
-      split; [|split].
+      split; [|split; [|split]]; [| | |exists ok; cbn [h_alloc]; rewrite Hn; exact RR].
       + split; cbn [elems nelems]; [rewrite length_removelast; lia|].
         intros j Hj _. assert (par j < j) by (apply par_lt; lia).
         rewrite !el_removelast by lia. apply HO; lia.
@@ -266,9 +276,9 @@ Section Ops.
       destruct (del_sift_props setrc l n rc Hn ltac:(lia) HO) as (HL & Elast & HO' & HPm & HH).
       destruct (del_sift setrc l n rc) as [L NS]. cbn [fst snd] in *. cbn [bind].
       assert (HsL : small (length L)) by (rewrite HL, Hn; auto).
-      destruct (shrink1_run L (h_alloc h) o HsL) as (ok & a & o1 & ev & _ & ES).
+      destruct (shrink1_run L (h_alloc h) o HsL) as (ok & a & o1 & ev & RR & ES).
       rewrite ES. cbn [bind]. do 4 eexists. split; [reflexivity|].
-      split; [|split].
+      split; [|split; [|split]]; [| | |exists ok; cbn [h_alloc]; rewrite <- HL; exact RR].
       + split; cbn [elems nelems]; [rewrite length_removelast; lia|].
         intros j Hj _. assert (par j < j) by (apply par_lt; lia).
         rewrite !el_removelast by lia. apply HO'; lia.
@@ -436,3 +446,18 @@ Section Ops.
     Qed.
   End KeyChange.
 End Ops.
+
+Lemma heap_inv_ext (le1 le2 : N -> N -> Prop) h :
+  (forall a b, In a (elems h) -> In b (elems h) -> le1 a b -> le2 a b) ->
+  heap_inv le1 h -> heap_inv le2 h.
+Proof.
+  intros H [Hn HO]. split; auto. intros j Hj Hk. assert (par j < j) by (apply par_lt; lia).
+  apply H; try (apply el_In; lia). apply HO; auto.
+Qed.
+
+Lemma handles_NoDup pos h : handles pos h -> NoDup (elems h).
+Proof.
+  intros H. apply (NoDup_nth (elems h) 0%N). intros i j Hi Hj E.
+  eapply handles_inj; eauto.
+Qed.
+
